@@ -1128,7 +1128,11 @@ static void conn_update(struct xcm_socket *s)
 	if (s->condition == 0)
 	    break;
 	else if (s->condition&XCM_SO_RECEIVABLE &&
+		 bts->conn.ssl_condition != XCM_SO_RECEIVABLE &&
 		 SSL_has_pending(bts->conn.ssl))
+	    /* Data pending inside OpenSSL, and no SSL_read() has been
+	       refused since: if one has, what is pending is an
+	       incomplete record, and only more input helps. */
 	    ready = true;
 	else if (bts->conn.ssl_condition == 0)
 	     /* No SSL_read()/write() issued */
@@ -1136,9 +1140,7 @@ static void conn_update(struct xcm_socket *s)
 	else if (s->condition == bts->conn.ssl_condition)
 	    bts->btcp_socket->condition = bts->conn.ssl_wants;
 	else if (s->condition == (XCM_SO_SENDABLE|XCM_SO_RECEIVABLE)) {
-	    if (SSL_has_pending(bts->conn.ssl))
-		ready = true;
-	    else if (bts->conn.ssl_condition == XCM_SO_SENDABLE) {
+	    if (bts->conn.ssl_condition == XCM_SO_SENDABLE) {
 		/* SSL_write() has been attempted */
 		if (bts->conn.ssl_wants == XCM_SO_RECEIVABLE)
 		     /* reneg */
